@@ -354,6 +354,12 @@ func (c *compiler) compileExpList(exps []ast.ExpNode, dstRegs []ir.Register) {
 			c.emitLoadConst(nil, nilK, dst)
 		}
 	}
+	// Excess expressions are evaluated too, their values are thrown away.
+	if len(exps) > len(dstRegs) {
+		for _, exp := range exps[len(dstRegs):] {
+			c.compileExpInto(exp, c.GetFreeRegister())
+		}
+	}
 }
 
 func (c *compiler) compileFunctionBody(f ast.Function) {
